@@ -562,3 +562,22 @@ def run_driver(workdir, script_lines, exe='drv', timeout=120, env=None):
     except subprocess.TimeoutExpired:
         return 'timeout', [], b''
     return r.returncode, r.stdout.decode(errors='replace').splitlines(), r.stderr
+
+
+def build_unit(src_name, out_name, cmd_prefix, extra_args=(), libs=()):
+    """compile a framework C/C++ unit (from /verif/c) against /repo's current tree into the per-tree cache"""
+    cd = cache_dir()
+    src = os.path.join(VERIF, 'c', src_name)
+    h = hashlib.sha256(open(src, 'rb').read() + repr((cmd_prefix, extra_args, libs)).encode()).hexdigest()[:10]
+    out = os.path.join(cd, '%s-%s' % (out_name, h))
+    if os.path.exists(out):
+        return out
+    with _Lock(os.path.join(cd, '.lock-' + out_name)):
+        if os.path.exists(out):
+            return out
+        r = run(list(cmd_prefix) + ['-I', os.path.join(REPO, 'w2c2'), '-I', os.path.join(REPO, 'futex'),
+                                    '-I', os.path.join(REPO, 'wasi'), src] + list(extra_args) + ['-o', out + '.tmp'] + list(libs))
+        if r.returncode != 0:
+            raise InfraError('building %s failed:\n%s' % (src_name, r.stderr.decode(errors='replace')[-3000:]))
+        os.rename(out + '.tmp', out)
+    return out
